@@ -13,7 +13,7 @@ seed; the harness compares with what the real callbacks received.
 
 Assumptions (stated in props/C15.json): the CAR header is the canonical dag-cbor go-car writes (the real code derives
 the first offset from the *re-encoded* header; compared on every `car` op); CIDs are the 36-byte form the writers
-produce; every node has at least the two bytes `data[1]` needs (otherwise the real code panics and so says the driver);
+produce; every node has at least the two bytes `data[1]` needs (otherwise `Run` fails with an error and so says the driver);
 the sync primitives are linearizable and order memory as the Go memory model says (the model's atomic steps are exactly
 the accesses to them).
 -/
